@@ -769,8 +769,16 @@ func ruleR058(c *Ctx) {
 			guarded, bound = true, v
 		}
 	}
-	if guarded && bound > 0 && bound <= 1000000 {
-		c.OK(key, app.Pos(), "the value stack grows only below the constant bound %d; beyond it the evaluation is aborted", bound)
+	// The bound has to stop a runaway recursion before the Go stack is exhausted, which is fatal (no recover): every
+	// level of a recursion of the evaluated program holds at least one slot of the value stack and at least two Go
+	// frames (the generated call closure and the body of the called closure: 544 bytes measured on amd64, at least
+	// 256 bytes on a 32 bit platform). The runtime grows a goroutine stack by doubling up to 1e9 bytes on 64 bit and
+	// 250e6 bytes on 32 bit platforms, i.e. the largest stack is 2^29 and 2^27 bytes: bound*256 must stay below 2^27.
+	const maxBound = (1 << 27) / 256
+	if guarded && bound > maxBound {
+		c.Violation(key, app.Pos(), "the value stack may grow to %d slots before a runaway recursion is stopped: every level of an evaluated recursion needs a slot and at least 256 bytes of Go stack (544 measured on amd64), so the Go stack (at most 2^27 bytes on 32 bit platforms, 2^29 on 64 bit) is exhausted first - a fatal error that no recover catches and that terminates the process, also while the optimizer folds a self application during Parse/Generate; the bound has to stay below %d", bound, maxBound)
+	} else if guarded && bound > 0 {
+		c.OK(key, app.Pos(), "the value stack grows only below the constant bound %d (< %d: the Go stack cannot be exhausted first); beyond it the evaluation is aborted", bound, maxBound)
 	} else {
 		c.Violation(key, app.Pos(), "the append that grows the value stack is not limited by a comparison of the slot index with a constant bound: runaway recursion exhausts memory / the Go stack instead of being reported")
 	}
